@@ -48,6 +48,23 @@ func (sc *Scope) evalAssignItem(cl *Clause) (*assignItem, error) {
 		it.ref = lv.Ref
 	}
 	switch {
+	case e.Op == "call" && e.Name == "ghost" && len(e.Args) == 1:
+		x := sc.eval(e.Args[0])
+		if sc.err != nil {
+			return nil, sc.err
+		}
+		if x.v == nil || len(x.v.L) == 0 {
+			return nil, fmt.Errorf("assigns %s: not an object value", cl.Src)
+		}
+		ref := x.v.L[0]
+		if isInterface(x.v.T) {
+			ref = x.v.L[1]
+		}
+		it.comps["GHOST"] = fileCompSort()
+		it.leaf["GHOST"] = SArr(SIdx, SBV(8))
+		it.ref = ref
+		it.onResult = false
+		return it, nil
 	case e.Op == "call" && e.Name == "file" && len(e.Args) == 1:
 		x := sc.eval(e.Args[0])
 		if sc.err != nil {
